@@ -12,7 +12,7 @@ static struct isal_huff_histogram g_hist;
 
 static std::string gen_hist(Tape &t, struct isal_huff_histogram &h, std::vector<uint8_t> *data_out) {
 	memset(&h, 0, sizeof h);
-	int kind = (int) t.range(0, 9);
+	int kind = (int) t.range(0, 10);
 	uint64_t seed = t.bits64();
 	const uint64_t MAXV = (1ull << 44) - 1;
 	switch (kind) {
@@ -43,6 +43,14 @@ static std::string gen_hist(Tape &t, struct isal_huff_histogram &h, std::vector<
 	}
 	case 6: { uint64_t scale = 1ull << t.range(0, 43); for (int i = 0; i < 286; i++) h.lit_len_histogram[i] = mix64(seed + i) % (scale + 1); for (int i = 0; i < 30; i++) h.dist_histogram[i] = mix64(seed * 3 + i) % (scale + 1); return "random-scaled"; }
 	case 7: for (int i = 0; i < 286; i++) h.lit_len_histogram[i] = mix64(seed + i) & MAXV; for (int i = 0; i < 30; i++) h.dist_histogram[i] = mix64(seed * 3 + i) & MAXV; return "random-full-range";
+	case 8: { // a few rare symbols next to many huge counts: the sum needs > 48 bits while single counts stay below 2^44
+		int nrare = (int) t.range(1, 8);
+		uint64_t big = t.coin() ? MAXV : (1ull << t.range(40, 43));
+		for (int i = 0; i < 286; i++) h.lit_len_histogram[i] = t.coin() ? big : big - mix64(seed + i) % (big / 2);
+		for (int i = 0; i < 30; i++) h.dist_histogram[i] = mix64(seed * 3 + i) & MAXV;
+		for (int i = 0; i < nrare; i++) h.lit_len_histogram[mix64(seed * 11 + i) % 256] = 1 + mix64(seed * 13 + i) % (i & 1 ? 1000 : 3);
+		return fmt("huge-plus-rare(%d)", nrare);
+	}
 	default: { // collected from data by one of the collectors
 		std::vector<dg::Seg> segs;
 		dg::gen(t, segs, 40000);
@@ -60,6 +68,22 @@ static std::string gen_hist(Tape &t, struct isal_huff_histogram &h, std::vector<
 			else isal_update_histogram(ib.p, (int) d.size(), &h);
 		});
 		if (f.faulted) throw Violation("hufftables:update_histogram:memory", fmt("isal_update_histogram variant %d on %zu bytes: %s", coll, d.size(), f.describe().c_str()));
+		// hash_table is scratch space: the same collector on the same bytes must count the same when that area holds garbage
+		{
+			static struct isal_huff_histogram h2;
+			memset(&h2, 0, sizeof h2);
+			uint64_t gs = mix64(seed ^ 0x5c);
+			for (size_t i = 0; i < IGZIP_LVL0_HASH_SIZE; i++) h2.hash_table[i] = (uint16_t) (mix64(gs + i) >> 9);
+			guard::Fault f2 = guard::call([&] {
+				if (coll == 0) isal_update_histogram_base(ib.p, (int) d.size(), &h2);
+				else if (coll == 1) isal_update_histogram_01(ib.p, (int) d.size(), &h2);
+				else if (coll == 2) isal_update_histogram_04(ib.p, (int) d.size(), &h2);
+				else isal_update_histogram(ib.p, (int) d.size(), &h2);
+			});
+			if (f2.faulted) throw Violation("hufftables:update_histogram:scratch", fmt("isal_update_histogram variant %d on %zu bytes with garbage in the scratch hash table: %s", coll, d.size(), f2.describe().c_str()));
+			if (memcmp(h2.lit_len_histogram, h.lit_len_histogram, sizeof h.lit_len_histogram) || memcmp(h2.dist_histogram, h.dist_histogram, sizeof h.dist_histogram))
+				throw Violation("hufftables:update_histogram:scratch", fmt("isal_update_histogram variant %d on %zu bytes: the counts depend on what the scratch hash table held before the call", coll, d.size()));
+		}
 		// plausibility of a collected histogram: literals + matched bytes account for at most the input
 		uint64_t lits = 0, nmatch = 0, ndist = 0;
 		for (int i = 0; i < 256; i++) lits += h.lit_len_histogram[i];
